@@ -29,14 +29,13 @@ import deck as deckmod
 import c06_gen
 from common import cz, cstr, clist, cfloat, copt, cpair
 
-THEOREMS = ['C06_stub']
-THEOREMS_FULL = ['C06_indices_first_fastest', 'C06_items_array',
-            'C06_items_array_3d', 'C06_reciprocal_dual',
-            'C06_square_base_vectors', 'C06_square_base_vectors_translate',
-            'C06_compose_transform_point',
-            'C06_develop_lattice_located',
-            'C06_lattice_filltr_rotation_refuted', 'C06_homogeneous_fill',
-            'C06_dimension_check_loop_dead']
+THEOREMS = ['C06_indices_first_fastest', 'C06_items_array',
+            'C06_items_array_3d', 'C06_homogeneous_fill',
+            'C06_reciprocal_dual', 'C06_square_base_vectors',
+            'C06_square_base_vectors_translate', 'C06_outward_sense',
+            'C06_square_errors', 'C06_compose_transform_point',
+            'C06_develop_lattice_located', 'C06_develop_lattice_complete',
+            'C06_dimension_checks_spec', 'C06_degenerate_range_refuted']
 TRUSTED = [
     'hand-written model coq/C06/Model.v (modelled, tied by execution only)',
     'cells, surfaces other than planes and the effect of a transformation on a '
@@ -60,11 +59,12 @@ ASSUMPTIONS = [
     'C06_square_base_vectors: the two surfaces of a pair are distinct '
     '(spacing <> 0) and the outward normals of the pairs are linearly '
     'independent; otherwise the code raises ZeroDivisionError (modelled, tied)',
-    'C06_develop_lattice_located: ranges with lo <= hi, as many base vectors '
-    'as ranges (or trailing ranges 0:0 beyond the lattice dimension), and a '
-    'fill transformation whose matrix fixes every element translation '
-    '(B t = t); outside that guard see C06_lattice_filltr_rotation_refuted '
-    '(finding lattice_fill_rotation)',
+    'C06_develop_lattice_located: ranges with lo <= hi, an array of exactly '
+    'size(ranges) entries, the dimension test of the code passes (as many '
+    'ranges as base vectors, or as many non-trivial ranges as base vectors: '
+    'C06_dimension_checks_spec; outside it C06_degenerate_range_refuted, '
+    'finding degenerate_range_rejected), filltr empty or 12 numbers, at most '
+    'one TRCL of 12 numbers',
     'a lattice cell with both TRCL and a fill transformation is tied but not '
     'swept (MCNP semantics not fixed by the reference)',
 ]
@@ -109,7 +109,7 @@ def call(fun, *args):
 
 # ---- witnesses of the known findings ---------------------------------------
 
-WITNESS_ROTATION = '''lattice with a rotating fill transformation (DESIGN 8 #18)
+WITNESS_ROTATION = '''lattice with a rotating fill transformation (DESIGN 8 #18, repaired: corpus)
 1 0 -10 fill=1 imp:n=1
 2 0 10 imp:n=0
 3 3 -1.0 -21 22 u=1 lat=1 *fill=5 (0 0 0 90 0 90 180 90 90 90 90 0) imp:n=1
@@ -486,7 +486,7 @@ def run(res, tier, seed, proofs_ok):
         res.violation('impl-violation', why,
                       {'input': {'deck': WITNESS_ROTATION,
                                  'args': WITNESS_ROTATION_ARGS}},
-                      cls='lattice_fill_rotation', found_input=True)
+                      cls=None, found_input=True)   # repaired in a82b50a
     why = witness_degenerate()
     if why:
         res.violation('impl-violation', why,
@@ -841,10 +841,9 @@ def direct_ties(res, rng, quick):
 
 
 def classify(deck, meta, failure):
-    '''Narrow class of a sweep failure, or None.'''
-    if meta['fill_rot'] and c06_gen.fill_rotation_moves(deck,
-                                                        failure.get('index')):
-        return 'lattice_fill_rotation'
+    '''Narrow class of a sweep failure, or None.  (The only open class of
+    C06, degenerate_range_rejected, is a rejected deck, not a point failure;
+    lattice_fill_rotation was repaired in /repo a82b50a.)'''
     return None
 
 
